@@ -50,8 +50,9 @@ Wi(t) == [t |-> t, kind |-> "wild", rel |-> "", cond |-> ""]
 Us(t, r) == [t |-> t, kind |-> "uset", rel |-> r, cond |-> ""]
 WithC(x, c) == [x EXCEPT !.cond = c]
 RestrAt(N, v) == CASE v = 0 -> <<Ty(N.user)>>
-                   [] v = 1 -> <<Ty(N.user), Wi(N.user), WithC(Us(N.doc, N.a), N.c), WithC(Wi(N.user), N.c)>>
-                   [] v = 2 -> <<WithC(Ty(N.user), N.c), Us(N.doc, N.b), Ty(N.doc)>>
+                   \* (a restriction written twice - apart, or next to itself - is there twice)
+                   [] v = 1 -> <<Ty(N.user), Wi(N.user), WithC(Us(N.doc, N.a), N.c), WithC(Wi(N.user), N.c), Ty(N.user)>>
+                   [] v = 2 -> <<WithC(Ty(N.user), N.c), Us(N.doc, N.b), Us(N.doc, N.b), Ty(N.doc)>>
 ExprAt(N, v) == CASE v = 0 -> N.k \o " < 10"
                   [] v = 1 -> N.k \o " in [1, 2, 3] && (ys[0] == \"a b\" || !flag) && " \o N.k \o " % 2 == 0 && ys[1] != \"100%\""
                   [] v = 2 -> N.k \o ".size() >= 1 &&\n    ys.all(y, y != 'q')"
